@@ -724,7 +724,7 @@ func hashOf(b *hotstuff.Block) []byte { h := b.Hash(); return h[:] }
 func verifWire(p vbase.Params, r *vbase.Result) {
 	r.Rule = "structure-aware fault enumeration of the Consensus and Kauri wire messages (Proposal, PartialCert, SyncInfo, TimeoutMsg, BlockHash, Contribution): cross product of field states - every optional sub-message absent / empty / " +
 		"valid; signatures absent / empty oneof / valid / valid-for-another-message / random / truncated / wrong scheme / empty list / nil entry / signer 0, non-member, huge / BLS garbage, empty, infinity; views 0, cur-1, cur, cur+1, 2^64-1; " +
-		"hashes genesis / known / unknown / zero / short / long / empty - each marshalled, unmarshalled and passed to the REAL serviceImpl handler with a peer context (messages in which nothing verifies are delivered five times: twice by one peer, then by two other peers and by a peer that sent no identity; the others once more by a peer without identity), then the event loop is drained, all under recover; replica states " +
+		"hashes genesis / known / unknown / zero / short / long / empty - each marshalled, unmarshalled and passed to the REAL serviceImpl handler with a peer context (messages in which nothing verifies are delivered six times: twice by one peer, then by two other peers, by a peer that sent no identity and by one claiming the replica's own identity; the others once more by a peer without identity), then the event loop is drained, all under recover; replica states " +
 		"fresh / mid-run / just timed out / deep (five views voted, locked and committed) x schemes x cache on/off x simple and aggregate timeout rule; oracles: no panic; messages in which nothing verifies leave (view, high QC, high TC, committed block, lock, last voted view, number of own signatures) unchanged; " +
 		"non-trivial: message with >= 1 non-default field; distinct: (state, scheme, cache, rule, message shape)"
 	type stN struct {
@@ -783,12 +783,14 @@ func verifWire(p vbase.Params, r *vbase.Result) {
 							// a peer may send the same bytes again: a replay of input in which nothing verifies must not get through either
 							pan, site = subj.call(c.kind, 3, c.msg)
 							// ... and by the other peers: a quorum of senders repeating what does not verify is still nothing
-							for _, peer := range []hotstuff.ID{2, 4, 0} {
+							// ... by a peer that sent no identity (0), and by one that claims the replica's own (without TLS the
+							// identity is request metadata the sender wrote itself)
+							for _, peer := range []hotstuff.ID{2, 4, 0, 1} {
 								if pan == nil && int(peer) <= nn {
 									pan, site = subj.call(c.kind, peer, c.msg)
 								}
 							}
-							r.Obs("replayed_deliveries", 4)
+							r.Obs("replayed_deliveries", 5)
 						}
 						anonymous := false
 						if pan == nil && c.valid && c.kind != "contribution" {
